@@ -198,7 +198,7 @@ func verifyFunc(p *Program, fn *ssa.Function, fc *FuncContract) (u *UnitResult) 
 		vo := vc.oblige("vacuity.return", fmt.Sprintf("ret%d", ri+1), name, re.st.reach, "false", "")
 		vo.Vacuity = true
 	}
-	if fc.GuardLock != "" {
+	if fc.GuardLock != "" && callsLock(fn) {
 		var parts []string
 		for _, r := range fr.rets {
 			parts = append(parts, implies(r.st.reach, not(fr.heldTerm(r.st))))
@@ -530,4 +530,18 @@ func (fr *frame) preRegisterHeaps(fn *ssa.Function, depth int, seen map[*ssa.Fun
 			}
 		}
 	}
+}
+
+// callsLock: the function itself acquires some mutex (a function that never locks cannot leave one locked).
+func callsLock(fn *ssa.Function) bool {
+	for _, b := range fn.Blocks {
+		for _, in := range b.Instrs {
+			if ci, ok := in.(ssa.CallInstruction); ok {
+				if callee := ci.Common().StaticCallee(); callee != nil && (callee.Name() == "Lock" || callee.Name() == "RLock") {
+					return true
+				}
+			}
+		}
+	}
+	return false
 }
